@@ -196,8 +196,28 @@ def gen_T15():
     need('return nonEmptyLines(nonCommentLines(fd))' in ast.unparse(find_def(uf, 'nonCommentNonEmptyLines')), 'utils.file.nonCommentNonEmptyLines changed')
     need('fd = utils.file.nonCommentNonEmptyLines(_fd)' in ast.unparse(opn), 'open_registry no longer reads through nonCommentNonEmptyLines')
     nss = ast.unparse(find_def(t, 'serialize', 'NormalizedString'))
-    for frag in ('prefixLen = len(self._name) + 2', 'textwrap.wrap(s, width=76 - prefixLen, break_long_words=False, break_on_hyphens=False)',
-                 "line = ' ' * prefixLen + line",
+    # the wrap width as a function of the name length: regenerated (WRAP_COLS, WRAP_EXTRA, WRAP_MIN)
+    ser = find_def(t, 'serialize', 'NormalizedString')
+    wraps = [n for n in ast.walk(ser) if isinstance(n, ast.Call) and ast.unparse(n.func) == 'textwrap.wrap']
+    need(len(wraps) == 1 and len(wraps[0].args) == 1 and ast.unparse(wraps[0].args[0]) == 's', 'NormalizedString.serialize: expected one textwrap.wrap(s, ...)')
+    kw = dict((k.arg, k.value) for k in wraps[0].keywords)
+    need(sorted(kw) == ['break_long_words', 'break_on_hyphens', 'width'] and ast.unparse(kw['break_long_words']) == 'False'
+         and ast.unparse(kw['break_on_hyphens']) == 'False', 'NormalizedString.serialize: textwrap.wrap keywords changed: %r' % sorted(kw))
+    w = kw['width']
+    wmin = 0
+    if isinstance(w, ast.Call) and ast.unparse(w.func) == 'max' and len(w.args) == 2 and isinstance(w.args[1], ast.Constant) and isinstance(w.args[1].value, int):
+        wmin = w.args[1].value
+        w = w.args[0]
+    need(isinstance(w, ast.BinOp) and isinstance(w.op, ast.Sub) and isinstance(w.left, ast.Constant) and isinstance(w.left.value, int)
+         and ast.unparse(w.right) == 'prefixLen', 'NormalizedString.serialize: wrap width is not <columns> - prefixLen or max(<columns> - prefixLen, <minimum>): %s' % ast.unparse(kw['width']))
+    wcols = w.left.value
+    pl = [st for st in ser.body if isinstance(st, ast.Assign) and ast.unparse(st.targets[0]) == 'prefixLen']
+    need(len(pl) == 1 and isinstance(pl[0].value, ast.BinOp) and isinstance(pl[0].value.op, ast.Add) and ast.unparse(pl[0].value.left) == 'len(self._name)'
+         and isinstance(pl[0].value.right, ast.Constant) and isinstance(pl[0].value.right.value, int), 'NormalizedString.serialize: prefixLen is not len(self._name) + <n>')
+    wextra = pl[0].value.right.value
+    need(wmin >= 0 and wcols > 0 and wextra >= 0, 'NormalizedString.serialize: wrap constants out of range')
+    out += 'Definition WRAP_COLS : nat := %d%%nat.\nDefinition WRAP_EXTRA : nat := %d%%nat.\nDefinition WRAP_MIN : nat := %d%%nat.\n' % (wcols, wextra, wmin)
+    for frag in ("line = ' ' * prefixLen + line",
                  "line += '\\\\'", 'os.linesep.join(lines)'):
         need(frag in nss, 'NormalizedString.serialize changed (expected `%s`)' % frag)
     nsn = ast.unparse(find_def(t, 'normalize', 'NormalizedString'))
